@@ -7,11 +7,14 @@ package main
 import (
 	"encoding/json"
 	"fmt"
+	"os"
+	"runtime/debug"
 	"sort"
 	"strings"
 	"sync"
 	"time"
 
+	"github.com/go-logr/logr"
 	"github.com/ovn-org/libovsdb/cache"
 	"github.com/ovn-org/libovsdb/model"
 	"github.com/ovn-org/libovsdb/ovsdb"
@@ -77,6 +80,210 @@ func runC14(r *Run) {
 	for h := 0; h < nHist; h++ {
 		c14History(r, h)
 	}
+	for h := 0; h < nHist*4; h++ {
+		c14Direct(r, h)
+	}
+}
+
+// cacheOnly gives cacheDump a bare TableCache
+type cacheOnly struct{ tc *cache.TableCache }
+
+func (c cacheOnly) Cache() *cache.TableCache { return c.tc }
+
+// c14Direct: notifications fed straight into a TableCache (Populate / Populate2, one row each), valid and
+// invalid alike: an insert for a row the cache holds, a modification or a deletion of a row it does not
+// hold, an index value another row owns. A notification that returns an error must leave the cache as it
+// was, and the event log, replayed, must still reproduce the cache: no event for a change that was not
+// applied.
+func c14Direct(r *Run, h int) {
+	spec := SchemaSpec{Name: "db", Tables: []TableSpec{c05Table}}
+	if r.Rng.Intn(2) == 0 {
+		spec.Tables[0].Indexes = [][]string{{"name"}}
+	}
+	db, err := BuildDB(spec, nil)
+	if err != nil {
+		panic(err)
+	}
+	logger := logr.Discard()
+	tc, err := cache.NewTableCache(db.Model, nil, &logger)
+	if err != nil {
+		panic(err)
+	}
+	h1, h2 := &recorder{db: db}, &recorder{db: db}
+	h2.delay = func() { time.Sleep(200 * time.Microsecond) }
+	tc.AddEventHandler(h1.handler())
+	tc.AddEventHandler(h2.handler())
+	stop := make(chan struct{})
+	done := make(chan struct{})
+	go func() { tc.Run(stop); close(done) }()
+	defer func() { close(stop); <-done }()
+	co := cacheOnly{tc}
+	type stepJ struct {
+		Kind string `json:"kind"`
+		UUID string `json:"uuid"`
+		Row  Row    `json:"row,omitempty"`
+		Err  string `json:"err,omitempty"`
+	}
+	var steps []stepJ
+	cs := map[string]interface{}{"schema_indexes": spec.Tables[0].Indexes}
+	rejected, applied := 0, 0
+	ovsRow := func(row Row) ovsdb.Row {
+		o := Row{}
+		for k, v := range row {
+			o[k] = nativeToOvsValue(v)
+		}
+		return rowToOvs(o)
+	}
+	n := 12 + r.Rng.Intn(20)
+	for i := 0; i < n; i++ {
+		u := mkUUID(1 + r.Rng.Intn(5))
+		before := cacheDump(co, db, []string{"T"})
+		var cur Row
+		for _, d := range before {
+			if d.UUID == u {
+				cur = d.Row
+			}
+		}
+		st := stepJ{UUID: u}
+		var perr error
+		call := func(f func() error) {
+			defer func() {
+				if p := recover(); p != nil {
+					perr = fmt.Errorf("panic: %v", p)
+					if os.Getenv("VERIF_DEBUG") != "" {
+						fmt.Fprintln(realStderr, string(debug.Stack()))
+					}
+				}
+			}()
+			perr = f()
+		}
+		switch k := r.Rng.Intn(10); {
+		case k < 4:
+			st.Kind, st.Row = "insert2", genC05Row(r.Rng)
+			row := ovsRow(st.Row)
+			call(func() error { return tc.Populate2(ovsdb.TableUpdates2{"T": {u: &ovsdb.RowUpdate2{Insert: &row}}}) })
+		case k < 6:
+			st.Kind = "delete2"
+			e := ovsdb.Row{}
+			call(func() error { return tc.Populate2(ovsdb.TableUpdates2{"T": {u: &ovsdb.RowUpdate2{Delete: &e}}}) })
+		case k < 7:
+			st.Kind = "delete1"
+			old := ovsRow(genC05Row(r.Rng))
+			if cur != nil {
+				old = ovsRow(cur)
+			}
+			call(func() error { return tc.Populate(ovsdb.TableUpdates{"T": {u: &ovsdb.RowUpdate{Old: &old}}}) })
+		case k < 8:
+			st.Kind, st.Row = "insert1", genC05Row(r.Rng)
+			row := ovsRow(st.Row)
+			call(func() error { return tc.Populate(ovsdb.TableUpdates{"T": {u: &ovsdb.RowUpdate{New: &row}}}) })
+		default:
+			st.Kind, st.Row = "update1", genC05Row(r.Rng)
+			row := ovsRow(st.Row)
+			old := ovsRow(genC05Row(r.Rng))
+			if cur != nil {
+				old = ovsRow(cur)
+			}
+			call(func() error { return tc.Populate(ovsdb.TableUpdates{"T": {u: &ovsdb.RowUpdate{Old: &old, New: &row}}}) })
+		}
+		after := cacheDump(co, db, []string{"T"})
+		if perr != nil {
+			st.Err = perr.Error()
+			rejected++
+		} else if dumpCanon(before) != dumpCanon(after) {
+			applied++
+		}
+		steps = append(steps, st)
+		cs["steps"] = steps
+		r.Count("direct:" + st.Kind)
+		if perr != nil {
+			r.Count("direct:rejected")
+			if strings.HasPrefix(perr.Error(), "panic") {
+				r.Case("direct", "")
+				r.Violation("direct", cs, perr.Error(), "", true, "applying a notification panicked", "")
+				return
+			}
+			if dumpCanon(before) != dumpCanon(after) {
+				r.Case("direct", "")
+				r.Violation("direct", cs, dumpCanon(after), dumpCanon(before), true, "a notification that was rejected with an error changed the cache", "")
+				return
+			}
+		}
+	}
+	key := ""
+	if rejected > 0 && applied > 1 {
+		key = fmt.Sprintf("%d|%s", h, mustJSON(steps))
+	}
+	r.Case("direct", key)
+	// quiescence: both handlers have the same number of events and it no longer grows
+	deadline := time.Now().Add(3 * time.Second)
+	stable := 0
+	last := -1
+	for time.Now().Before(deadline) && stable < 10 {
+		a, b := len(h1.snapshot()), len(h2.snapshot())
+		if a == b && a == last {
+			stable++
+		} else {
+			stable = 0
+		}
+		last = a
+		time.Sleep(time.Millisecond)
+	}
+	e1, e2 := h1.snapshot(), h2.snapshot()
+	var a, b []string
+	for _, e := range e1 {
+		a = append(a, e.canon())
+	}
+	for _, e := range e2 {
+		b = append(b, e.canon())
+	}
+	if strings.Join(a, "\n") != strings.Join(b, "\n") {
+		r.Violation("direct", cs, strings.Join(a, "\n"), strings.Join(b, "\n"), true, "two handlers of one cache saw different event sequences", "")
+		return
+	}
+	st, why := replayEvents(e1)
+	if why != "" {
+		r.Violation("direct", cs, strings.Join(a, "\n"), "", true, why, "")
+		return
+	}
+	var replayed []DumpRow
+	for k, row := range st {
+		p := strings.SplitN(k, "/", 2)
+		replayed = append(replayed, DumpRow{Table: p[0], UUID: p[1], Row: row})
+	}
+	sort.Slice(replayed, func(i, j int) bool { return replayed[i].Table+replayed[i].UUID < replayed[j].Table+replayed[j].UUID })
+	got := dumpCanon(cacheDump(co, db, []string{"T"}))
+	if rp := dumpCanon(replayed); rp != got {
+		r.Violation("direct", cs, diffLines(rp, got), "replayed events = cache", true, "the events replayed on an empty table set do not reproduce the cache (an event was delivered for a change that was not applied, or a change was applied without an event)", "")
+	}
+}
+
+// replayEvents replays an event log on an empty table set, checking that every event is legal in the state
+// its predecessors produce
+func replayEvents(es []EventJ) (map[string]Row, string) {
+	st := map[string]Row{}
+	for i, e := range es {
+		k := e.Table + "/" + e.UUID
+		cur, ok := st[k]
+		switch e.Ev {
+		case "add":
+			if ok {
+				return st, fmt.Sprintf("event %d: add for a row the log already holds (%s)", i, e.canon())
+			}
+			st[k] = e.New
+		case "update":
+			if !ok || cur.Canon() != e.Old.Canon() {
+				return st, fmt.Sprintf("event %d: the old model of an update is not the previous state of the row (%s)", i, e.canon())
+			}
+			st[k] = e.New
+		case "delete":
+			if !ok || cur.Canon() != e.Old.Canon() {
+				return st, fmt.Sprintf("event %d: the model of a delete is not the previous state of the row (%s)", i, e.canon())
+			}
+			delete(st, k)
+		}
+	}
+	return st, ""
 }
 
 func c14History(r *Run, h int) {
